@@ -25,7 +25,7 @@ Readers (what a parser on the consuming side does):
 * `scanHtmlAttr`, `scanHtmlText`  the same for a double-quoted HTML attribute and HTML text;
 * `scanJson`     reads a JSON string body up to the closing `"` (RFC 8259: escapes resolved, raw
                  control bytes rejected).
-* the breadcrumb of templates/macros.html 15-17, whose `href` is marked `| safe`.
+* the breadcrumb of templates/macros.html 15-17 and the row links of templates/index.html.
 Core Lean only: this file is linked into the native driver `gm_c18`.
 -/
 namespace Grcov.Escape
@@ -290,7 +290,8 @@ def jsonUnescape (bs : Bytes) : Option Bytes :=
   | some (v, []) => some v
   | _ => none
 
-/-! ## The `| safe` sink: breadcrumb links of a file page (html.rs 418-449, macros.html 15-17) -/
+/-! ## Breadcrumb links of a file page (html.rs 418-449, macros.html 15-17); since /repo ffd66c7 the
+link is auto-escaped like every other value -/
 
 /-- `PathBuf::push` on Unix -/
 def pathJoin (a b : Bytes) : Bytes :=
@@ -313,14 +314,15 @@ def fileTopLink (absPrefix : Option Bytes) (depth : Nat) : Bytes :=
   | none => (List.replicate depth [46, 46, 47]).flatten ++ indexHtml
   | some p => pathJoin p indexHtml
 
-/-- `<li><a href="{{ parent.0 | safe }}">{{ parent.1 }}</a></li>`: the link raw, the label
-escaped -/
+/-- `<li><a href="{{ parent.0 }}">{{ parent.1 }}</a></li>`: link and label both escaped -/
 def breadcrumbItem (link label : Bytes) : Bytes :=
-  [60, 108, 105, 62, 60, 97, 32, 104, 114, 101, 102, 61, 34] ++ link ++ [34, 62] ++ html label
+  [60, 108, 105, 62, 60, 97, 32, 104, 114, 101, 102, 61, 34] ++ html link ++ [34, 62] ++ html label
     ++ [60, 47, 97, 62, 60, 47, 108, 105, 62]
 
-/-! ## Row links of the index pages (templates/index.html 21-37: `url=item~"/index.html"`,
-`url=item~".html"`; macros.html 41: `<a href="{{ url }}">`) -/
+/-! ## Row links of the index pages (templates/index.html 21-37; macros.html 41:
+`<a href="{{ url }}">`). Without a prefix: `"./"~item~"/index.html"`, `"./"~item~".html"` (since
+/repo 8e4c27e); with `info.abs_prefix` non-empty: `abs_prefix~item~"/index.html"` (no separator)
+and `abs_prefix~"/"~item~".html"`. -/
 
 def isAlpha (b : Nat) : Bool := (65 ≤ b && b ≤ 90) || (97 ≤ b && b ≤ 122)
 def isSchemeChar (b : Nat) : Bool :=
@@ -337,9 +339,21 @@ def hasScheme (url : Bytes) : Bool :=
   | [] => false
   | b :: rest => isAlpha b && schemeTail rest
 
-/-- the link of a directory row of the top-level index (no `--abs-link-prefix`) -/
-def dirRowUrl (item : Bytes) : Bytes := item ++ [47] ++ indexHtml
-/-- the link of a file row of a directory index (no `--abs-link-prefix`) -/
-def fileRowUrl (item : Bytes) : Bytes := item ++ [46, 104, 116, 109, 108]
+def dotSlash : Bytes := [46, 47]                       -- ./
+def dotHtml : Bytes := [46, 104, 116, 109, 108]        -- .html
+
+/-- the link of a directory row of the top-level index; `absPrefix` is the option value (the
+template treats an empty one like an absent one) -/
+def dirRowUrl (absPrefix : Option Bytes) (item : Bytes) : Bytes :=
+  match absPrefix with
+  | none => dotSlash ++ item ++ [47] ++ indexHtml
+  | some p => if p = [] then dotSlash ++ item ++ [47] ++ indexHtml else p ++ item ++ [47] ++ indexHtml
+
+/-- the link of a file row of a directory index; `dirPrefix` is `<prefix>/<directory>` when the
+option is given -/
+def fileRowUrl (dirPrefix : Option Bytes) (item : Bytes) : Bytes :=
+  match dirPrefix with
+  | none => dotSlash ++ item ++ dotHtml
+  | some q => if q = [] then dotSlash ++ item ++ dotHtml else q ++ [47] ++ item ++ dotHtml
 
 end Grcov.Escape
